@@ -305,3 +305,14 @@ Theorem C02_read_policy_current :
 Proof. exact read_policy_tables. Qed.
 Print Assumptions C02_inspect_twice_current.
 Print Assumptions C02_read_policy_current.
+
+(* the item stream of the normal engine (Model/DataRead.normal_items) IS the generator `items` of
+   reader.read_data_section_iterative_normal_engine as it stands today; see C09_engine_items_current and
+   Proofs/FuncsPinEngine.v *)
+Require Import FuncsPinEngine.
+Theorem C02_engine_array_current : forall (V F A : Type) (nops : num_ops V F) (np_array : list (F + list N) -> A) d
+                                          file first last title subs,
+  py_engine_array nops np_array (skipn first file) (Z.of_nat first, Z.of_nat last) (List.map sub_pair subs) [ch_hash] (split_line d)
+  = np_array (List.map (tok_val nops) (normal_items d subs (body_lines file (mkspos first last title)))).
+Proof. exact engine_array_pin. Qed.
+Print Assumptions C02_engine_array_current.
